@@ -87,6 +87,8 @@ func tensorToProto(name string, t tensor.Tensor) *onnx.TensorProto {
 	return tp
 }
 
+var defaultsFirstToggle = false
+
 // "" (none), "Concat" or "Expand": see buildFxModelD
 var passThrough = ""
 
@@ -164,6 +166,15 @@ func buildFxModelD(op string, fx fixture, weightsFrom int, defaults bool) *fxMod
 	}
 	m.outNames = outs
 	g.Node = append(pre, node)
+	if defaults {
+		// every other model with defaults lists them BEFORE the required inputs in graph.input
+		defaultsFirstToggle = !defaultsFirstToggle
+		if defaultsFirstToggle {
+			for i, j := 0, len(g.Input)-1; i < j; i, j = i+1, j-1 {
+				g.Input[i], g.Input[j] = g.Input[j], g.Input[i]
+			}
+		}
+	}
 	b, err := proto.Marshal(&onnx.ModelProto{IrVersion: 7, OpsetImport: []*onnx.OperatorSetIdProto{{Version: 13}}, Graph: g})
 	if err != nil {
 		return nil
@@ -397,6 +408,9 @@ func genC02(dir, tier string, seed int64) {
 				steps := 2 + r.Intn(5)
 				for s := 0; s < steps; s++ {
 					kind := r.Intn(8)
+					if len(fm.defNames) > 0 && h%2 == 1 && s == 0 {
+						kind = 4 // a history that STARTS with a call failing for a missing input ...
+					}
 					var in gonnx.Tensors
 					switch {
 					case kind >= 6: // the very same tensor objects again, REFILLED in place with other contents
@@ -429,7 +443,7 @@ func genC02(dir, tier string, seed int64) {
 						}
 					}
 					// a weight that is also a graph input: overridden in some calls, defaulted in the others
-					if len(fm.defNames) > 0 && r.Intn(2) == 0 {
+					if len(fm.defNames) > 0 && (r.Intn(2) == 0 || (h%2 == 1 && s == 1)) { // ... and goes on with an override
 						cp := gonnx.Tensors{}
 						for k, t := range in {
 							cp[k] = t
